@@ -18,7 +18,7 @@ import (
 // Result vocabulary shared with HeightCacheOps.tla.
 const (
 	vNil     = 0  // nil byte slice / absent
-	vEmpty   = 1  // empty NON-nil byte slice
+	vEmpty   = -1 // empty NON-nil byte slice
 	vPanic   = -9 // the iterator panicked here
 	vRunaway = -8 // iteration cut by the harness (more items than any store can hold)
 	vUnknown = -2
